@@ -727,6 +727,9 @@ def rule_product_sites(ctx, rep: Report, rid="N1", min_sites=3):
                 r = _handwritten_product(cfn)
                 c = type("Q", (), {"qual": cq})
                 key = f"product:{fn.name if fn else '?'}:{unparse(loop.iter)[:60]}"
+                if r is None and any(isinstance(x, ast.Call) and (dotted(x.func) or "").endswith("product") for x in ast.walk(cfn)):
+                    n -= 1
+                    continue            # the helper calls itertools.product itself: that call is judged below, where it stands
                 if r is None:
                     raise AnalysisError(f"{mi.rel}:{loop.lineno}: instantiations are enumerated by {c.qual}, whose "
                                         f"shape is not recognised as a Cartesian product")
@@ -763,9 +766,21 @@ def rule_product_sites(ctx, rep: Report, rid="N1", min_sites=3):
                 raise AnalysisError(f"{mi.rel}:{it.lineno}: itertools.product result is not consumed by a loop this rule can follow")
             n += 1
             key = f"product:{fn.name if fn else '?'}:{unparse(it)[:60]}"
-            ok = len(it.args) == 1 and isinstance(it.args[0], ast.Starred) and not it.keywords \
-                and unparse(it.args[0].value).endswith(".template.instantiations") \
-                and isinstance(it.args[0].value, ast.Attribute)
+            def whole_lists(e) -> bool:
+                """e is `<decl>.template.instantiations` itself - or `<p>.instantiations` where p is a parameter of this helper
+                for which every caller passes `<decl>.template`."""
+                if not isinstance(e, ast.Attribute) or e.attr != "instantiations":
+                    return False
+                if unparse(e).endswith(".template.instantiations"):
+                    return True
+                if fn is not None and isinstance(e.value, ast.Name) and e.value.id in func_params(fn):
+                    sites = [c for m2 in prog.modules.values() if m2.rel.startswith(TI) for c in ast.walk(m2.tree)
+                             if isinstance(c, ast.Call) and (dotted(c.func) or "").split(".")[-1] == fn.name]
+                    idx = func_params(fn).index(e.value.id)
+                    args_ = [(c.args[idx] if idx < len(c.args) else next((k.value for k in c.keywords if k.arg == e.value.id), None)) for c in sites]
+                    return bool(sites) and all(a_ is not None and unparse(a_).endswith(".template") for a_ in args_)
+                return False
+            ok = len(it.args) == 1 and isinstance(it.args[0], ast.Starred) and not it.keywords and whole_lists(it.args[0].value)
             rep.add(rid, key, ok,
                     "instantiations must be enumerated as itertools.product(*<decl>.template.instantiations) over "
                     "the parsed lists themselves (declaration order, first parameter slowest, an empty list "
@@ -1152,14 +1167,19 @@ def rule_capitalise(ctx, rep: Report, rid="N5"):
     caps = [c for c in ast.walk(fn) if isinstance(c, ast.Call) and isinstance(c.func, ast.Attribute)
             and c.func.attr in ("capitalize", "upper")]
     positional = False
+    whole = []
     for c in caps:
         recv = c.func.value
-        if isinstance(recv, ast.Subscript) and isinstance(recv.slice, ast.Constant) and recv.slice.value == 0:
+        first = isinstance(recv, ast.Subscript) and ((isinstance(recv.slice, ast.Constant) and recv.slice.value == 0)
+                                                   or (isinstance(recv.slice, ast.Slice) and unparse(recv.slice).replace(" ", "") in (":1", "0:1")))
+        if not first:
+            whole.append(unparse(c)[:40])       # capitalize()/upper() of more than the first character lower-cases / upper-cases the rest
+        if first:
             p = parent(c)
             if isinstance(p, ast.BinOp) and isinstance(p.op, ast.Add) and p.left is c and isinstance(p.right, ast.Subscript) \
                     and isinstance(p.right.slice, ast.Slice) and unparse(p.right.slice) == "1:":
                 positional = True
-    rep.add(rid, "instantiate_name:only the first character is upper-cased", positional and not bad,
+    rep.add(rid, "instantiate_name:only the first character is upper-cased", positional and not bad and not whole,
             ("name.replace(name[0], ...) rewrites every occurrence of the first character (abcab -> AbcAb)"
              if bad else "the capitalised name must be name[0].capitalize() + name[1:]"),
             f"{mi.rel}:{(bad or caps or [fn])[0].lineno}")
